@@ -3,6 +3,8 @@
     check_proc(exo_proc) -> list[str]          mismatches (empty: equal, or outside the fragment)
     check_proc_full(exo_proc, driver=None)     -> {"status": "covered"|"skipped"|"mismatch",
                                                    "why": str, "mismatches": [...], "modOK": bool|None,
+                                                   "freeOK": bool|None  (static `free` discipline of the emitted body,
+                                                   lean/ExoModel/CompileS.lean `freeOK`; False = F7 situation),
                                                    "real": [...], "model": [...]}
 
 The procedure is compiled by the REAL backend (`compile_procs_to_strings([p], "p.h")`, as
@@ -214,7 +216,7 @@ def check_proc_full(exo_proc, driver=None):
     common.import_exo()
     from exo.API import compile_procs_to_strings
 
-    res = {"status": "skipped", "why": "", "mismatches": [], "modOK": None, "real": [], "model": []}
+    res = {"status": "skipped", "why": "", "mismatches": [], "modOK": None, "freeOK": None, "real": [], "model": []}
     ir0 = exo_proc.INTERNAL_proc() if hasattr(exo_proc, "INTERNAL_proc") else exo_proc
     name = str(ir0.name)
     try:
@@ -276,6 +278,7 @@ def check_proc_full(exo_proc, driver=None):
     model = canon(ans["ok"], False)
     res["model"] = model
     res["modOK"] = ans["modOK"]
+    res["freeOK"] = ans.get("freeOK")
     mm = []
     for k in range(max(len(real), len(model))):
         a = real[k] if k < len(real) else "<missing>"
@@ -312,6 +315,7 @@ def self_test(verbose=False):
     why = Counter()
     bad = []
     f6 = []
+    f7 = []
     for nm, src in _programs().items():
         try:
             mod = exo_build.build_module(src)
@@ -329,6 +333,8 @@ def self_test(verbose=False):
                 bad.append((nm, pn, r["mismatches"]))
             if r["status"] == "covered" and r["modOK"] is False:
                 f6.append(f"{nm}/{pn}")
+            if r["status"] in ("covered", "mismatch") and r["freeOK"] is False:
+                f7.append(f"{nm}/{pn}")
             if verbose and r["status"] == "covered":
                 print(f"--- {nm}/{pn}: {len(r['real'])} lines equal, modOK={r['modOK']}")
     close()
@@ -339,6 +345,7 @@ def self_test(verbose=False):
     for k, v in sorted(why.items()):
         print(f"  skipped {v:3d}  {k}")
     print(f"  covered with a possibly-negative `%` numerator (modOK=false, F6): {sorted(f6)}")
+    print(f"  compiled but NOT satisfying the static free discipline (freeOK=false, F7): {sorted(f7)}")
     for nm, pn, mm in bad:
         for m in mm[:6]:
             print(f"  MISMATCH {nm}: {m}")
